@@ -38,6 +38,47 @@ pub fn size(v: &Value) -> usize {
     }
 }
 
+/// `old ++ piece` as a format-like value (a literal piece becomes literal text).
+pub fn concat_value(old: &Value, piece: &Value, line: usize) -> Value {
+    let mut parts: Vec<Value> = Vec::new();
+    let inner = {
+        let mut x = old;
+        while x.get("k").and_then(|k| k.as_str()) == Some("var") {
+            match x.get("v") {
+                Some(v) => x = v,
+                None => break,
+            }
+        }
+        x
+    };
+    if inner.get("k").and_then(|k| k.as_str()) == Some("fmt") && inner.get("concat").is_some() {
+        if let Some(ps) = inner.get("parts").and_then(|p| p.as_array()) {
+            parts = ps.clone();
+        }
+    } else {
+        parts.push(json!({"hole":old,"named":null,"spec":""}));
+    }
+    let lit = {
+        let mut x = piece;
+        while matches!(x.get("k").and_then(|k| k.as_str()), Some("var")) {
+            match x.get("v") {
+                Some(v) => x = v,
+                None => break,
+            }
+        }
+        if x.get("k").and_then(|k| k.as_str()) == Some("lit") && matches!(x.get("t").and_then(|t| t.as_str()), Some("str") | Some("char")) {
+            x.get("v").and_then(|v| v.as_str()).map(|s| s.to_string())
+        } else {
+            None
+        }
+    };
+    match lit {
+        Some(t) => parts.push(json!({"lit":t})),
+        None => parts.push(json!({"hole":piece,"named":null,"spec":""})),
+    }
+    json!({"k":"fmt","line":line,"named_bindings":{},"parts":parts,"concat":true,"ty":"String"})
+}
+
 pub fn ty_of(v: &Value) -> Option<String> {
     v.get("ty").and_then(|t| t.as_str()).map(|s| s.to_string())
 }
